@@ -279,6 +279,7 @@ def harness(run, profile="release"):
 
 BAD_ID = (63 << 58) | (1 << 56)          # top six bits 63: no origin - rejected by every id-taking call
 STATEFUL_OPS = ("hist", "threads", "memo_fill", "consts")
+FRESH_INSTANCE_OPS = ("dodeca_forward", "dodeca_inverse")
 
 
 def _poison(q, rng):
@@ -296,7 +297,8 @@ def _poison(q, rng):
         if op in ("cell_to_children", "cell_to_parent") and len(t) >= 3:
             return rng.choice([f"{op} {BAD_ID} {t[2]}", f"{op} {t[1]} 31", f"{op} {int(t[1]) | 1} {t[2]}", f"{op} {int(t[1]) >> 58 << 58 | 1 << 57} {t[2]}"])
         if op == "cell_to_boundary" and len(t) >= 4:
-            return rng.choice([f"{op} {t[1]} {1 - int(t[2])} {rng.choice([1, 2, 3])}", f"{op} {BAD_ID} {t[2]} {t[3]}", f"cell_to_boundary_default {t[1]}"])
+            return rng.choice([f"{op} {t[1]} {1 - int(t[2])} {rng.choice([1, 2, 3])}", f"{op} {t[1]} {1 - int(t[2])} {t[3]}", f"{op} {t[1]} {t[2]} {rng.choice([1, 2, 5])}",
+                               f"{op} {BAD_ID} {t[2]} {t[3]}", f"cell_to_boundary_default {t[1]}"])
         if op in ("cell_to_lonlat", "cell_to_boundary_default", "deserialize", "get_resolution") and len(t) >= 2:
             return rng.choice([f"{op} {BAD_ID}", f"{op} {int(t[1]) >> 58 << 58 | 1 << 57}", f"cell_to_boundary {t[1]} 1 1"])
         if op == "lonlat_to_cell" and len(t) >= 4:
@@ -341,7 +343,12 @@ def reordered_pass(run, exe, requests, model, canon, label, isolate, timeout):
             pz = _poison(requests[j] if requests[j].split()[0] == q.split()[0] else q, rng)
             if pz:
                 seq.append(pz); back.append(None)
-        seq.append(q); back.append(i)
+        op0 = q.split()[0]
+        if op0 in FRESH_INSTANCE_OPS and 0.4 < r < 0.7:
+            # the same call on a freshly constructed projection instance that is dropped afterwards (public constructor): same answer
+            seq.append(op0 + "_new" + q[len(op0):]); back.append(i)
+        else:
+            seq.append(q); back.append(i)
         if r > 0.85:
             seq.append(q); back.append(i)          # the same call twice in a row
     # line-flushed, so that a crash or hang is attributed to the request that caused it and nothing else is lost
@@ -381,6 +388,26 @@ def reordered_pass(run, exe, requests, model, canon, label, isolate, timeout):
                                   q, a[:300], {"answer_of_the_model": model[i][:300]})
         run.corr_cases += len(cseq)
         run.extra["concurrent_pass_requests"] = run.extra.get("concurrent_pass_requests", 0) + len(cseq)
+        # ... and hammered: a small set of calls, each answered once on the main thread and then repeated by 8 threads at once,
+        # 150 times each in different orders (a race between two memo words needs the same few keys hit again and again)
+        if cbad == 0:
+            by_op = {}
+            for i in pure:
+                if len(model[i]) < 2000:
+                    by_op.setdefault(requests[i].split()[0], []).append(i)
+            hot = []
+            for op_, idxs in by_op.items():
+                hot += idxs[: max(4, 48 // max(1, len(by_op)))]
+            hot = hot[:64]
+            if len(hot) >= 2:
+                hout = run_stream(exe, [requests[i] for i in hot], args=["hammer", "8", str(run.n(150, 1500))], timeout=min(timeout, 300), isolate=False, mem_bytes=6 << 30)
+                for i, a in zip(hot, hout):
+                    if a.startswith("MISMATCH "):
+                        q = requests[i]
+                        run.corr_disagreements.append({"request": q, "impl": a[:2000], "model": model[i][:2000], "suite": label + " [hammered by 8 threads]"})
+                        run.violation("the result of a call changes while 8 threads repeat the same few calls at once (answer of the main thread before the threads started vs answer inside a thread)",
+                                      q, a[9:300], {"answer_of_the_model": model[i][:300]})
+                run.extra["hammer_pass_requests"] = run.extra.get("hammer_pass_requests", 0) + len(hot)
 
 
 def both(run, requests, label, profile="release", isolate=False, canon=None, timeout=1800, compare=True, reorder=True):
